@@ -8,7 +8,7 @@ Open Scope N_scope.
 
 (* --- RFC 8945 4.3: what is handed to the HMAC.  Request MAC with its 16-bit
    length (absent when empty); the message with the TSIG's original ID in the
-   first two octets; then either the two timers, or NAME CLASS(=ANY) TTL
+   first two octets; then either the two timers, or NAME CLASS TTL
    ALGORITHM TIME FUDGE ERROR OTHERLEN OTHERDATA with both names lower-cased.
    A zero time is replaced by the clock, a zero fudge by 300. *)
 Theorem digest_input_layout :
@@ -19,7 +19,7 @@ Theorem digest_input_layout :
     put_u16 msgbuf 0 (k_origid t) = Ok mb /\
     buf = (if lenN rm =? 0 then [] else u16 (lenN rm) ++ rm) ++ mb ++
           (if timers then u48 time ++ u16 fudge
-           else wire_name (canon (k_name t)) ++ u16 255 ++ u32 (k_ttl t) ++
+           else wire_name (canon (k_name t)) ++ u16 (k_class t) ++ u32 (k_ttl t) ++
                 wire_name (canon (k_alg t)) ++ u48 time ++ u16 fudge ++
                 u16 (k_error t) ++ u16 (k_otherlen t) ++ k_other t).
 Proof.
@@ -81,7 +81,7 @@ Theorem verify_sound :
       k_mac t = hmac a secret
                   ((if lenN rm =? 0 then [] else u16 (lenN rm) ++ rm) ++ mb ++
                    (if timers then u48 time ++ u16 fudge
-                    else wire_name (canon (k_name t)) ++ u16 255 ++ u32 (k_ttl t) ++
+                    else wire_name (canon (k_name t)) ++ u16 (k_class t) ++ u32 (k_ttl t) ++
                          wire_name (canon (k_alg t)) ++ u48 time ++ u16 fudge ++
                          u16 (k_error t) ++ u16 (k_otherlen t) ++ k_other t)) /\
       (if now <? time then time - now else now - time) <= fudge.
@@ -131,16 +131,18 @@ Theorem digest_injective_full :
     hdr_ok h1 -> hdr_ok h2 -> wf_body chk h1 b1 -> wf_body chk h2 b2 ->
     valid_wire (canon (k_name t1)) = true -> valid_wire (canon (k_name t2)) = true ->
     valid_wire (canon (k_alg t1)) = true -> valid_wire (canon (k_alg t2)) = true ->
+    k_class t1 < 65536 -> k_class t2 < 65536 ->
     k_ttl t1 < 4294967296 -> k_ttl t2 < 4294967296 ->
     ti1 < 281474976710656 -> ti2 < 281474976710656 -> f1 < 65536 -> f2 < 65536 ->
     k_error t1 < 65536 -> k_error t2 < 65536 -> k_otherlen t1 < 65536 -> k_otherlen t2 < 65536 ->
     (if lenN rm =? 0 then [] else u16 (lenN rm) ++ rm) ++ (hdr_wire h1 ++ b1) ++
-      (wire_name (canon (k_name t1)) ++ u16 255 ++ u32 (k_ttl t1) ++ wire_name (canon (k_alg t1)) ++
+      (wire_name (canon (k_name t1)) ++ u16 (k_class t1) ++ u32 (k_ttl t1) ++ wire_name (canon (k_alg t1)) ++
        u48 ti1 ++ u16 f1 ++ u16 (k_error t1) ++ u16 (k_otherlen t1) ++ k_other t1) =
     (if lenN rm =? 0 then [] else u16 (lenN rm) ++ rm) ++ (hdr_wire h2 ++ b2) ++
-      (wire_name (canon (k_name t2)) ++ u16 255 ++ u32 (k_ttl t2) ++ wire_name (canon (k_alg t2)) ++
+      (wire_name (canon (k_name t2)) ++ u16 (k_class t2) ++ u32 (k_ttl t2) ++ wire_name (canon (k_alg t2)) ++
        u48 ti2 ++ u16 f2 ++ u16 (k_error t2) ++ u16 (k_otherlen t2) ++ k_other t2) ->
-    h1 = h2 /\ b1 = b2 /\ canon (k_name t1) = canon (k_name t2) /\ k_ttl t1 = k_ttl t2 /\
+    h1 = h2 /\ b1 = b2 /\ canon (k_name t1) = canon (k_name t2) /\ k_class t1 = k_class t2 /\
+    k_ttl t1 = k_ttl t2 /\
     canon (k_alg t1) = canon (k_alg t2) /\ ti1 = ti2 /\ f1 = f2 /\ k_error t1 = k_error t2 /\
     k_otherlen t1 = k_otherlen t2 /\ k_other t1 = k_other t2.
 Proof. exact digest_full_injective. Qed.
